@@ -58,6 +58,12 @@ def motions(ground, lam, tier):
     # the same object scaled more than once (radius and coordinates must accumulate alike)
     M.append([('scale', 4.), ('scale', 2.5)])
     M.append([('scale', 0.5), ('translate', 1, [0.2 * lam, 0.1 * lam, 0.]), ('scale', 3.), ('scale', 2.)])
+    # sort keys whose numeric order differs from their order as text
+    if not ground:
+        two.append([('translate', 2, [0.3 * lam, -lam, 2 * lam]), ('rotate', 10, [17., -33., 71.])])
+        two.append([('rotate', 9, [90., 0., 45.]), ('rotate', 10, [0., 30., 0.]), ('translate', 100, [lam, 0., 0.])])
+    else:
+        two.append([('translate', 2, [0.3 * lam, -lam, 0.]), ('rotate', 10, [0., 0., 71.])])
     for seq in two:
         M.append(seq)
         M.append(seq[::-1])     # same keys, options listed in the opposite order
@@ -156,7 +162,11 @@ def eval_curved(c):
             continue
         cli.reset_sources(mb)
         s2, _ = xf_exc(c['srcs'], [], R, t, s)
-        geom.add_sources(mb, s2)
+        try:
+            geom.add_sources(mb, s2)
+        except (AssertionError, KeyError) as e:
+            viol.append(('DEV-ends-curved', '%s: motion %s: no pulse at the moved feed point (%s)' % (c['curved'], name, str(e)[:80])))
+            continue
         mb.compute()
         # the harness' own image of the segment table
         ea, eb = segends(ma), segends(mb)
@@ -252,8 +262,12 @@ def evaluate(c):
             continue
         cli.reset_sources(mb)
         s2, l2 = xf_exc(srcs, loads, R, t, s)
-        geom.add_sources(mb, s2)
-        geom.add_loads(mb, l2)
+        try:
+            geom.add_sources(mb, s2)
+            geom.add_loads(mb, l2)
+        except (AssertionError, KeyError) as e:
+            viol.append(('DEV-ends-%s' % ('seq' if len(seq) > 1 else seq[0][0]), 'motion %s: the structure built through the options has no pulse at the moved feed / load point (%s)' % (name, str(e)[:80])))
+            continue
         mb.compute()
         # (c) through the coordinates
         mc = geom.build(dict(xf_case(a_case, R, t, s), sources=s2, loads=l2))
